@@ -839,6 +839,9 @@ func c23Round(rt *rapid.T, m *MultiCoalescer, w *c23Writer, flows []*c23Flow, r 
 	if mono {
 		stay = 20
 	}
+	if c23Interleave {
+		stay = 0 // another flow for every packet
+	}
 	// transmission order
 	split := n
 	if rapid.IntRange(0, 2).Draw(rt, "twoEpochs") == 0 {
@@ -1004,7 +1007,7 @@ func c23NewCoalescer(rt *rapid.T) (*MultiCoalescer, *c23Writer, string) {
 	return NewMultiCoalescer(iw, slog.New(slog.NewTextHandler(io.Discard, nil))), w, caps
 }
 
-var c23Faults bool
+var c23Faults, c23Interleave bool
 
 // TestC12_TunWriteFaults (property C12, "acted upon at most once"): the same generated batches, but
 // the device refuses 1-3 of the writes of a flush. The multiset/order oracle of C23 is applied to
@@ -1022,18 +1025,41 @@ func TestC23_Transparent(t *testing.T) {
 func c23Transparent(t *testing.T, cases int) {
 	vk.Check(t, cases, func(rt *rapid.T) {
 		m, w, caps := c23NewCoalescer(rt)
-		mode := rapid.IntRange(0, 13).Draw(rt, "mode")
+		mode := rapid.IntRange(0, 15).Draw(rt, "mode")
 		bulk, mono := mode <= 2, mode == 0 // bulk: 1-3 run-heavy flows; mono: uninterrupted runs
+		// mix: 3-6 flows of ONE transport protocol over both address families, uniform datagrams, a
+		// different flow for every packet - each flow's run is interrupted by packets of the other family
+		mix := mode >= 14
+		c23Interleave = mix
 		nf := rapid.IntRange(1, 12).Draw(rt, "flows")
 		if bulk {
 			nf = rapid.IntRange(1, 3).Draw(rt, "flows")
 		}
+		if mix {
+			nf = rapid.IntRange(3, 6).Draw(rt, "flows")
+			mono = true
+		}
 		flows := make([]*c23Flow, nf)
+		mixProto := rapid.SampledFrom([]byte{gso.ProtoUDP, gso.ProtoUDP, gso.ProtoTCP}).Draw(rt, "mixProto")
 		for i := range flows {
 			flows[i] = c23DrawFlow(rt, bulk)
 			if mono {
 				flows[i].size = rapid.SampledFrom([]int{1, 100, 536, 1000, 1023}).Draw(rt, "monoSize")
 			}
+			if mix {
+				f := flows[i]
+				f.proto = mixProto
+				f.v6 = i%3 != 0 // flows 0,3: IPv4; the others IPv6
+				pool := c23V4Addrs
+				if f.v6 {
+					pool = c23V6Addrs
+				}
+				f.src = pool[(i*2)%len(pool)]
+				f.dst = pool[(i*2+1)%len(pool)]
+			}
+		}
+		if mix {
+			vk.Label(c23PID, "mix-both-families-interleaved")
 		}
 		r := c23Rng(rapid.Uint64().Draw(rt, "contentSeed"))
 		rounds := rapid.IntRange(1, 3).Draw(rt, "rounds")
